@@ -79,3 +79,12 @@ MUTANTS['C19'] = [
   ('alias-dataset-name-is-member', [(D, "                'dataset': dataset_name,\n", "                'dataset': dataset_name if dataset_name not in self.alias else self.alias[dataset_name][0],\n")]),
   ('alias-members-sorted', [(D, "                dataset_names = self.alias[dataset_name]\n", "                dataset_names = sorted(self.alias[dataset_name])\n")]),
 ]
+
+MUTANTS['C09'] = [
+  ('from_list-not-serialising', [(C, "    examples = list(map(serialize, examples))\n    return ListDataset(examples, name=name).map(deserialize)", "    examples = list(examples)\n    return ListDataset(examples, name=name)")]),
+  ('copy-mode-deserialize-identity', [(C, "        return lambda x: x, deepcopy", "        return lambda x: x, (lambda x: x)")]),
+  ('cachewrapper-stores-object', [(C, "        self.cache[key] = self._serialize(value)", "        self.cache[key] = value"), (C, "        return self._deserialize(self.cache[item])", "        return self.cache[item]")]),
+  ('cache-returns-stored-after-first-hit', [(C, "    def __getitem__(self, item):\n        return self._deserialize(self.cache[item])", "    def __getitem__(self, item):\n        v = self.cache[item]\n        if isinstance(v, bytes):\n            v = self.cache[item] = self._deserialize(v)\n        return v")]),
+  ('wu-list-caches-results', [(C, "        bytes = memoryview(self._lst[start_addr:end_addr])\n        return pickle.loads(bytes)", "        if not hasattr(self, '_memo'):\n            self._memo = {}\n        if idx not in self._memo:\n            self._memo[idx] = pickle.loads(memoryview(self._lst[start_addr:end_addr]))\n        return self._memo[idx]")]),
+  ('from_dict-shares-values-for-copy-of-copy', [(C, "    examples = {k: serialize(v) for k, v in examples.items()}\n    return DictDataset(examples, name=name).map(deserialize)", "    examples = {k: serialize(v) for k, v in examples.items()}\n    return DictDataset(examples, name=name).map(deserialize if immutable_warranty == 'pickle' else (lambda x: dict(x)))")]),
+]
